@@ -8,7 +8,17 @@ pairs and runs the whole Fixer.Fix loop on generated modules.  Here:
     (model lexer, itself compared with the parser's comment/string positions);
   * predicate on the implementation alone (computed by the harness): the fixed module parses, its AST equals the
     original's modulo the documented effects, every changed line is explained by documented splices, opa-fmt alone
-    gives OPA's formatter output."""
+    gives OPA's formatter output;
+  * state between the files of ONE run: (a) one instance of the Fmt fix (opa-fmt / use-rego-v1 of
+    fixes.NewDefaultFixes(), or built with options as the language server does) formats 2-5 candidates mixing v0 and
+    v1 modules in every order; result and the RegoVersion left in its options after every call are recomputed by
+    Model/Fixes.v fmt_fix (parser and OPA's formatter tabulated by the harness without the fix); predicate: same
+    result as a fresh instance, parses under the file's version, equals OPA's formatter output for that version;
+    (b) Fixer.Fix over file sets mixing v0 and v1 modules (versions through roots / detected / both) x 10 rule
+    subsets, the single-file predicate per file under ITS version + every step of every file (contents linted in each
+    iteration) is OPA's formatter output for the file's version or documented splices of the enabled text fixes;
+  * multi-byte text before the fix column incl. characters outside of the BMP: grid fix kind x 1..4 such characters
+    x decoy (=, #, ", :=) inside a string 1..6 characters to the left of the fix column, through Fixer.Fix."""
 import base64, collections, json, os, re
 import vlib
 from vlib import clist
@@ -434,7 +444,7 @@ def run(ctx):
                 'of the fixable rules through Fixer.Fix. distinct = distinct unit calls that changed the content + distinct modules '
                 'that Fixer.Fix changed. astral: grid fix kind x k in 1..4 characters outside of the BMP (alone / with 2- and 3-byte '
                 'characters) x distance 1..6 of a decoy (=, #, ", :=) inside a string to the left of the fix column. multi: file sets '
-                'mixing v0 and v1 modules (versions by roots / detected / both) x 10 rule subsets in ONE Fixer.Fix run, per-file predicate. '
+                'mixing v0 and v1 modules (versions by roots / detected / both) x 10 rule subsets in ONE Fixer.Fix run, per-file predicate + per-step oracle. '
                 'seq: one Fmt fix instance over 2-5 candidates in every order, result and options state after every call vs model',
         'unit_cases': len(units), 'unit_cases_through_lsp_code_action': len(lsp_cases), 'unit_changed': len(changed), 'unit_status': dict(collections.Counter(c['fix'] + ':' + c['status'] for c in units)),
         'modules': len(e2e), 'modules_lintable': len(mods), 'modules_with_violations': len(withv), 'modules_changed': len(fixed),
@@ -469,6 +479,10 @@ def run(ctx):
         'the language-server code action calls the same Fix functions with the location rebuilt from the diagnostic range '
         '(start line/character + 1): covered by the unit-level theorems for all locations, not driven through the server here',
         'UTF-8 decoding as Go does it is modelled (rune_width) and validated by the unit correspondence incl. invalid bytes',
+        'Fmt fix: the parser (module version) and OPA formatter are oracles of the model; the theorems hold for every oracle, the '
+        'correspondence tabulates them per candidate (harness\' own parse, format.AstWithOpts called directly for every target version); '
+        'the order in which the linter reports the violations of different files is not controlled in the Fixer.Fix runs (all orders are '
+        'driven at the level of the shared fix instance)',
     ])
 
 
